@@ -14,6 +14,9 @@ def main():
     err = schema.validate(man, "/root/.vp/MANIFEST.schema.json")
     assert not err, err
     import strax  # noqa: F401  (compiles the eagerly-jitted functions into the keyed cache dir)
+    from vlib import warm
+
+    warm.warm()
 
     print("setup ok; numba cache:", os.environ.get("NUMBA_CACHE_DIR"), "strax", strax.__version__, "from", os.path.dirname(strax.__file__))
     return 0
